@@ -118,6 +118,7 @@ type fakeSrv struct {
 	errAt    int
 	hbLeft   int
 	maxFrags int
+	renewals int           // renewal requests seen
 	release  chan struct{} // non-nil: close requests are executed but not answered until it is closed
 	noMore   bool          // a response said more_results = false
 	maxSync  int           // cut-off for a scanner that does not make progress
@@ -174,6 +175,9 @@ func (f *fakeSrv) SendRPC(call hrpc.Call) (proto.Message, error) {
 	// like the real client: a request whose own context has ended is not sent at all (QueueRPC
 	// drops it) and the caller gets the context error
 	if err := call.Context().Err(); err != nil {
+		if scan.RenewalScan() {
+			return nil, err // a renewal whose renewer was stopped meanwhile: not part of the conversation
+		}
 		f.mu.Lock()
 		f.trace = append(f.trace, "D/-/-/-/0/0")
 		f.mu.Unlock()
@@ -185,6 +189,21 @@ func (f *fakeSrv) SendRPC(call hrpc.Call) (proto.Message, error) {
 	// the request as it goes on the wire (scanner-id form or open form)
 	scan.SetRegion(f.info(c.regionOf(scan.Key(), scan.Reversed())))
 	req := scan.ToProto().(*pb.ScanRequest)
+	if req.GetRenew() {
+		// a lease renewal, as HBase treats it: no rows move. With a scanner id the lease of that
+		// scanner is renewed; WITHOUT one the server first opens a region scanner (with a lease of
+		// its own) and answers at once with its id — nobody will ever close that one.
+		f.renewals++
+		if req.ScannerId != nil {
+			if _, ok := f.scanners[req.GetScannerId()]; !ok {
+				return nil, errUnknownScanner
+			}
+			return &pb.ScanResponse{ScannerId: req.ScannerId, MoreResultsInRegion: proto.Bool(true)}, nil
+		}
+		id := f.nextID + 5000 + uint64(f.renewals)
+		f.scanners[id] = &rscanner{id: id, reg: c.regionOf(scan.Key(), scan.Reversed())}
+		return &pb.ScanResponse{ScannerId: proto.Uint64(id), MoreResultsInRegion: proto.Bool(true)}, nil
+	}
 	closeFlag := req.GetCloseScanner()
 	kind := "O"
 	idStr := "-"
@@ -408,12 +427,17 @@ func (f *fakeSrv) mutate(frs []sfrag, mi, mr, isOpen bool) ([]sfrag, bool, bool,
 
 var closeWaitTimeouts int
 
+// renewEvery is the lease renewal interval of the renewing scans; their consumer pauses for a few
+// intervals now and then, so that renewals happen in every state of the scan.
+const renewEvery = 2 * time.Millisecond
+
 type endPlan struct {
 	kind string // full | close | cancel | err
 	n    int    // Next calls before Close / cancel; request index for err
 }
 
 type runCfg struct {
+	renew       bool // the scan renews its scanner lease (RenewInterval) and the consumer is slow
 	silentClose bool // the server never answers close requests
 	hb          int
 	maxFrags    int
@@ -553,6 +577,9 @@ func runScan(c *scanCase, ch *chooser, plan endPlan, cfg runCfg) runOut {
 	if c.closing {
 		opts = append(opts, hrpc.CloseScanner())
 	}
+	if cfg.renew {
+		opts = append(opts, hrpc.RenewInterval(renewEvery))
+	}
 	scan, err := hrpc.NewScanRange(ctx, []byte("t"), c.start, c.stop, opts...)
 	if err != nil {
 		panic(err)
@@ -576,9 +603,14 @@ func runScan(c *scanCase, ch *chooser, plan endPlan, cfg runCfg) runOut {
 	var items []string
 	ended, dead, hung := false, false, false
 	out := runOut{nNext: -1}
+	nNext := 0
 	next := func() bool { // returns true if the call reported an error / EOF
 		if dead {
 			return true
+		}
+		nNext++
+		if cfg.renew && nNext%2 == 0 && nNext < 12 {
+			time.Sleep(3 * renewEvery) // a slow consumer: the renewer ticks meanwhile
 		}
 		it, e := safeNext(sc)
 		ops.WriteByte('N')
@@ -642,6 +674,9 @@ func runScan(c *scanCase, ch *chooser, plan endPlan, cfg runCfg) runOut {
 		closeIt()
 		next()
 		closeIt()
+	}
+	if cfg.renew {
+		time.Sleep(4 * renewEvery) // a renewer that outlives the scan shows itself now
 	}
 	// let the asynchronous close request(s) reach the fake
 	f.mu.Lock()
@@ -896,6 +931,7 @@ func runC06(tier string, seed uint64, out *Out) {
 	for i := 0; i < n; i++ {
 		c := randCase(rng, 12, 5)
 		cfg := runCfg{hb: rng.Intn(4), maxFrags: 1 + rng.Intn(4), idBase: uint64(rng.Intn(1000))}
+		cfg.renew = i%200 == 7
 		sub := NewRNG(rng.Next(), "script")
 		emit(out, c, &chooser{rng: sub}, endPlan{kind: "full"}, cfg)
 	}
@@ -968,6 +1004,7 @@ func runC14(tier string, seed uint64, out *Out) {
 			c.closing = true
 		}
 		cfg.silentClose = i%4 == 3
+		cfg.renew = i%60 == 11
 		s := rng.Next()
 		allEnds(out, c, func() *chooser { return &chooser{rng: NewRNG(s, "script")} }, cfg)
 	}
